@@ -284,6 +284,9 @@ func (r *PhaseReconciler) teardownPhaseObject(
 		r.ownerStrategy.RemoveOwner(owner.ClientObject(), object)
 		objectPatch := map[string]interface{}{
 			"metadata": map[string]interface{}{
+				// The owner list is replaced as a whole, so make sure it is
+				// still the one we inspected and not changed by others in the meantime.
+				"resourceVersion": currentObj.GetResourceVersion(),
 				"labels": map[string]interface{}{
 					constants.DynamicCacheLabel: nil,
 				},
